@@ -6,6 +6,13 @@ set_option linter.unusedSimpArgs false
 namespace Exa.Wire
 open Exa
 
+instance instDecEqExcept {ε α : Type} [DecidableEq ε] [DecidableEq α] : DecidableEq (Except ε α) := fun a b =>
+  match a, b with
+  | .ok x, .ok y => if h : x = y then isTrue (by rw [h]) else isFalse (by intro e; cases e; exact h rfl)
+  | .error x, .error y => if h : x = y then isTrue (by rw [h]) else isFalse (by intro e; cases e; exact h rfl)
+  | .ok _, .error _ => isFalse (by intro e; cases e)
+  | .error _, .ok _ => isFalse (by intro e; cases e)
+
 /-- `decodeRaw` on a body assembled from three byte fields. -/
 theorem decodeRaw_frame (p : Params) (W A N : Bytes) (hW : W.length < 65536) (hA : A.length < 65536) :
     decodeRaw p (be16 W.length ++ (W ++ (be16 A.length ++ (A ++ N)))) =
@@ -133,8 +140,8 @@ theorem mem_mpAnnounces (as : List Attr) (x : Nat × Nat × Bytes × Nlri) :
     cases hv : a.val <;> simp
     case mpReach afi safi nh ns =>
       constructor
-      · rintro ⟨n, hn, rfl⟩; exact ⟨n, hn, rfl⟩
-      · rintro ⟨n, hn, rfl⟩; exact ⟨n, hn, rfl⟩
+      · rintro ⟨n, hn, rfl⟩; exact ⟨afi, safi, nh, ns, ⟨rfl, rfl, rfl, rfl⟩, n, hn, rfl⟩
+      · rintro ⟨_, _, _, _, ⟨rfl, rfl, rfl, rfl⟩, n, hn, rfl⟩; exact ⟨n, hn, rfl⟩
 
 theorem mem_mpWithdraws (as : List Attr) (x : Nat × Nat × Nlri) :
     x ∈ mpWithdraws as ↔
@@ -147,7 +154,7 @@ theorem mem_mpWithdraws (as : List Attr) (x : Nat × Nat × Nlri) :
     cases hv : a.val <;> simp
     case mpUnreach afi safi ns =>
       constructor
-      · rintro ⟨n, hn, rfl⟩; exact ⟨n, hn, rfl⟩
-      · rintro ⟨n, hn, rfl⟩; exact ⟨n, hn, rfl⟩
+      · rintro ⟨n, hn, rfl⟩; exact ⟨afi, safi, ns, ⟨rfl, rfl, rfl⟩, n, hn, rfl⟩
+      · rintro ⟨_, _, _, ⟨rfl, rfl, rfl⟩, n, hn, rfl⟩; exact ⟨n, hn, rfl⟩
 
 end Exa.Wire
